@@ -244,9 +244,9 @@ def rule_unused(ck: Check, repo: Repo) -> None:
     q = f"{RP}.ProjectReport.unused_licenses"
     fn = repo.func(q)
     ck.analysed_fn(q)
-    comps = [n for n in ast.walk(fn) if isinstance(n, ast.SetComp)]
+    comps = [n for n in ast.walk(fn) if isinstance(n, ast.SetComp) and ast.unparse(n.generators[0].iter) == "self.licenses"]
     if len(comps) != 1:
-        raise AnalysisError("unused_licenses: expected one set comprehension")
+        raise AnalysisError("unused_licenses: expected one set comprehension over self.licenses")
     c = comps[0]
     g = c.generators[0]
     var = ast.unparse(g.target)
@@ -258,11 +258,20 @@ def rule_unused(ck: Check, repo: Repo) -> None:
             return "used_plus"
         return None
 
-    cond = ("and",) + tuple(bool_formula(i, atom) for i in g.ifs) if g.ifs else True
+    try:
+        cond = ("and",) + tuple(bool_formula(i, atom) for i in g.ifs) if g.ifs else True
+    except Exception as err:  # noqa: BLE001 - a filter written over other sets than used_licenses itself (a pre-computed plus-free set …)
+        raise AnalysisError(f"unused_licenses: the filter {[ast.unparse(i)[:60] for i in g.ifs]} is not written over `l in used` / `l+ in used`:"
+                            f" not decided ({err})")
     facts = {"elt": ast.unparse(c.elt), "iter": ast.unparse(g.iter), "filter": [ast.unparse(i) for i in g.ifs]}
     r.instance(q, facts)
     if facts["elt"] != var or facts["iter"] != "self.licenses" or len(c.generators) != 1:
         r.violation(q, "unused source", f"{facts}", repo.loc(fn))
+    from ..rules import atoms_of as _atoms
+    unknown = [a for a in _atoms(cond) if str(a).startswith("?")] if cond is not True else []
+    if unknown:
+        raise AnalysisError(f"unused_licenses: the filter is written over {unknown[:2]} and not over `l in used_licenses` / `l+ in used_licenses`:"
+                            " whether it equals ¬used(l) ∧ ¬used(l+) is not decided")
     bad = equivalent(cond, ("and", ("not", "used"), ("not", "used_plus")))
     if bad is not None:
         r.violation(q, "unused filter", f"filter {facts['filter']} differs from ¬used(l) ∧ ¬used(l+) at {bad}", repo.loc(fn))
